@@ -3,6 +3,7 @@ import Gsu.Model.BtreeLeaf
 import Gsu.Model.BtreeTree
 import Gsu.Model.BtreeCodec
 import Gsu.Model.BtreeMerge
+import Gsu.Model.BtreeRangeFrac
 import Gsu.Gen.Btree
 open Gsu.Proto Gsu.Btree
 
@@ -38,21 +39,13 @@ def parseKVs : List String → Option (List KV)
 def showIter (l : List KV) : String :=
   "n " ++ toString l.length ++ " h " ++ toString (hashList l) ++ " r " ++ toString (hashList l.reverse)
 
-/-- ops (state = content of the current tree):
-  build <split> k off …   bulk build; answers the iteration summary of the built tree
-  merge k rawoff …        MergeAndSave of a batch; `!assert` when the Go code panics
+/-- ops on the content (map level model):
   lookup k                offset or 0
+  leaves <split> k …      leaf packing of the bulk Builder: key count and byte size per leaf
   iter                    n / forward hash / backward hash
 -/
 def stepM (m : List KV) (l : List String) : List KV × String :=
   match l with
-  | "merge" :: toks =>
-    match parseKVs toks with
-    | some b =>
-      match applyBatch m (b.map fun (k, raw) => let (op, o) := decode raw; (k, op, o)) with
-      | some m' => (m', showIter m')
-      | none => (m, "!assert")
-    | none => (m, "bad-op")
   | ["lookup", k] =>
     match parseBytes k with
     | some k => (m, toString ((lookup m k).getD 0))
@@ -66,10 +59,22 @@ def stepM (m : List KV) (l : List String) : List KV × String :=
   | ["iter"] => (m, showIter m)
   | _ => (m, "bad-op")
 
-/-- additional ops on the abstract tree:
-  build <split> k off …   also bulk-builds the abstract tree (`bulkBuild`)
+/-- a float64 passed exactly as `mantissa exponent` (value = m · 2^e) -/
+def dyadic (m e : Int) : Rat :=
+  if e ≥ 0 then ((m * (2 : Int) ^ e.toNat : Int) : Rat) else mkRat m (2 ^ (-e).toNat)
+
+/-- the bucket of 1/10000 a fraction falls into (offset: no result the code can produce is
+close to a bucket boundary) -/
+def fracBucket (x : Rat) : Int := (x * 10000 + mkRat 3819660112501051 10000000000000000).floor
+
+/-- ops on both the content and the abstract tree (state = both):
+  build <split> k off …   bulk build (`bulkBuild`); answers the iteration summary of its content
+  merge k rawoff …        MergeAndSave of a batch on the content (`applyBatch`) and on the tree
+                          (`mergeBatch`); `!assert` when the Go code panics (both models refuse)
   shape                   the shape of the abstract tree (compared with a walk of the real nodes)
   tlookup k               `Lookup` by descent through the abstract tree
+  rangefrac cnt org end mA eA mB eB   `RangeFrac(org, end)` with exact rational arithmetic and the
+                          two fanout values of the Go code as exact float64s; answers the 1/10000 bucket
   leafcodec x<bytes>      a stored leaf node: prefix length, key count, checksum of the decoded
                           entries, `size()`, model size, and whether `encodeLeaf (decodeLeaf bytes) = bytes`
 -/
@@ -101,6 +106,11 @@ def step (s : St) (l : List String) : St × String :=
       (s, toString l.pre ++ " " ++ toString l.es.length ++ " " ++ toString (hashList l.es) ++ " " ++
         toString (leafNodeSize bs) ++ " " ++ toString l.size ++ " " ++ showBool (encodeLeaf l == bs))
     | none => (s, "bad-op")
+  | ["rangefrac", cnt, org, end_, ma, ea, mb, eb] =>
+    match parseNat cnt, parseBytes org, parseBytes end_, parseInt ma, parseInt ea, parseInt mb, parseInt eb with
+    | some cnt, some org, some end_, some ma, some ea, some mb, some eb =>
+      (s, toString (fracBucket (rangeFracQ s.t cnt org end_ (dyadic ma ea) (dyadic mb eb))))
+    | _, _, _, _, _, _, _ => (s, "bad-op")
   | ["tlookup", k] =>
     match parseBytes k with
     | some k => (s, toString ((s.t.lookup k).getD 0))
